@@ -2,12 +2,18 @@ import DoltVerif.Model.Wire
 import DoltVerif.Model.JournalRec
 import DoltVerif.Model.JournalRecover
 import DoltVerif.Model.JournalWriter
+import DoltVerif.Model.JournalIndex
 open DoltVerif DoltVerif.Journal DoltVerif.Wire
 
 structure St where
   file : Bytes := []
   w : WState := { cap := 0, maxNovel := 0, threshold := 0 }
   written : Bytes := []
+  boot : Option Boot := none
+
+def showOp : FileOp → String
+  | .idxCreate => "idx-create" | .idxTruncate o => s!"idx-truncate:{o}" | .idxWriteLookup _ => "idx-lookup"
+  | .idxWriteMeta _ => "idx-meta" | .jrnTruncate o => s!"jrn-truncate:{o}" | .jrnSync => "jrn-sync"
 
 def showEv : Ev → String
   | .write off bs => s!"W{off}+{bs.length}"
@@ -98,6 +104,25 @@ def step (st : St) : List String → St × String
       | some n => let (w, evs) := Journal.step st.w (.bump n); ({ st with w := w }, showW w evs)
       | none => (st, "bad-op")
   | ["wwritten"] => (st, hex st.written)
+  | ["iboot", bsz, mx, idx, cw] => match bsz.toNat?, mx.toNat?, (if idx == "none" then some none else (unhex idx).map some) with
+      | some B, some mx, some idx =>
+        match bootstrap B mx st.file idx (cw == "1") with
+        | .ok b =>
+          let root := match b.root with | some r => hex r | none => "-"
+          let ops := (b.ops.filter (fun o => match o with | .idxWriteLookup _ => false | _ => true)).map showOp
+          ({ st with boot := some b }, s!"ok {root} {b.off} {b.indexed} {b.cached.length} [{",".intercalate ops}]")
+        | .dataLoss off => ({ st with boot := none }, s!"dataloss {off}")
+        | .fatal e => ({ st with boot := none }, s!"err {rerr e}")
+      | _, _, _ => (st, "bad-op")
+  | ["iget", a] => match unhex a, st.boot with
+      | some a, some b => (st, match b.get a with | some (o, l) => s!"some {o} {l}" | none => "none")
+      | _, _ => (st, "bad-op")
+  | ["iparse", idx] => match unhex idx with
+      | some d => (st, match readIndex st.file d with
+          | .ok r => s!"ok {r.lookups.length} {r.indexed} {r.safeOff}"
+          | .error .malformed => "err malformed" | .error .checksum => "err checksum"
+          | .error .notContiguous => "err not-contiguous" | .error .rootMismatch => "err root")
+      | none => (st, "bad-op")
   | _ => (st, "bad-op")
 
 def main : IO Unit := run ({} : St) step
